@@ -508,6 +508,10 @@ fn write_workload_small(version: Version, ctl: Arc<Ctl>) -> WriteRun {
     let script: Vec<(&str, usize, u64)> = vec![
         ("write", 3000, 1), ("flush", 0, 0), ("seek", 0, 0), ("write", 2600, 2), ("flush", 0, 0),
         ("seek", 500, 0), ("write", 1200, 3), ("seek", 2900, 0), ("write", 1500, 4), ("flush", 0, 0),
+        // reading across window boundaries on the same handle (each refill seeks: a fault position), then writing
+        // where the reads ended: a failed refill must not move the handle
+        ("seek", 0, 0), ("read", 900, 0), ("read", 900, 0), ("read", 900, 0), ("read", 900, 0), ("write", 300, 5), ("flush", 0, 0),
+        ("seek", 3000, 0), ("read", 1000, 0), ("read", 1000, 0), ("write", 100, 6), ("flush", 0, 0),
     ];
     'ops: for (op, n, salt) in script {
         let data = pattern(n, salt);
@@ -515,8 +519,10 @@ fn write_workload_small(version: Version, ctl: Arc<Ctl>) -> WriteRun {
         let mut tries = 0;
         loop {
             let f0 = fired(&ctl);
+            let mut rb = vec![0u8; if op == "read" { n } else { 0 }];
             let r: std::io::Result<usize> = match op {
                 "write" => s.write(&data[off..]),
+                "read" => s.read(&mut rb),
                 "flush" => s.flush().map(|_| 0),
                 _ => s.seek(SeekFrom::Start(n as u64)).map(|_| 0),
             };
@@ -538,6 +544,13 @@ fn write_workload_small(version: Version, ctl: Arc<Ctl>) -> WriteRun {
                             }
                         }
                         "seek" => cursor = n,
+                        "read" => {
+                            let end = (cursor + k).min(spec.len());
+                            if cursor + k > spec.len() || rb[..k] != spec[cursor..end] {
+                                run.bad.push(format!("read on the small-buffer handle returned {} bytes at position {} that are not the stream's (after {} injected fault(s))", k, cursor, f1));
+                            }
+                            cursor = end;
+                        }
                         _ => {
                             if ctl.dirty.load(Ordering::SeqCst) {
                                 run.bad.push("flush on the small-buffer handle returned Ok but the underlying file was not flushed after its last write (a write-back underlying file does not have the bytes)".into());
